@@ -429,6 +429,36 @@ def r0b(prog, run):
         if bo and bo[0] == '||':
             return disjuncts(f, bo[1]) + disjuncts(f, bo[2])
         return [f.skip(nid)]
+    # both sides pick the payload the same way: the first child element of the stanza and nothing else
+    for qn, what in (('QXmpp::Private::isIqType', 'the shared element predicate'), ('QXmpp::Private::checkIsIqRequest', 'the typed request helper')):
+        g = prog.fn(qn)
+        run.instance(rid)
+        probes = [i for i, n in g.calls() if g.cname(n) in ('QDomElement::tagName', 'QDomNode::namespaceURI') and n.get('obj') is not None
+                  and not (g.nodes[g.skip(n['obj'])].get('vk') == 'param')]
+        if not probes:
+            raise AnalysisBroken('C08.R0b: %s no longer reads tag name / namespace of a child' % qn)
+        bad = None
+        for i in probes:
+            o = g.nodes[g.skip(g.nodes[i]['obj'])]
+            srcs = [g.skip(g.nodes[i]['obj'])] if o['k'] != 'var' else [d for d in g.all_defs(o.get('decl')) if d is not None]
+            if not srcs:
+                bad = (i, 'a value the checker cannot trace')
+            for d in srcs:
+                dn = g.nodes[g.skip(d)]
+                real = [a for a in dn.get('args', []) if g.nodes[a]['k'] != 'defarg'] if dn['k'] == 'call' else None
+                member_form = dn['k'] == 'call' and g.cname(dn) == 'QDomNode::firstChildElement' and not real and dn.get('obj') is not None \
+                    and g.nodes[g.skip(dn['obj'])].get('vk') == 'param'
+                helper_form = dn['k'] == 'call' and g.cname(dn) == 'QXmpp::Private::firstChildElement' and real is not None and len(real) == 1 \
+                    and g.nodes[g.skip(real[0])].get('vk') == 'param'
+                if not (member_form or helper_form):
+                    bad = (i, g.fmt(d, inline=False)[:70])
+        if bad:
+            run.violation(rid, '%s#payload-not-first-child' % qn.split('::')[-1], g.loc(bad[0]),
+                          '%s (%s) reads tag / namespace of %s instead of the first child element of the stanza: predicate and request helper no longer agree on which child is '
+                          'the payload, so a request the helper declines can be claimed by a manager\'s response branch (nobody answers) or the other way round'
+                          % (qn.split('::')[-1], what, bad[1]))
+        else:
+            run.ok(rid, g.loc(), '%s looks at element.firstChildElement() only' % qn.split('::')[-1])
     for t in sorted(classes):
         preds = [f for f in prog.fns.values() if f.record == t and f.name.startswith('is') and f.name.endswith('Iq') and len(f.params) == 1 and 'QDomElement' in f.params[0]['t'] and not f.is_lambda]
         chk = [f for f in prog.fns.values() if f.record == t and f.name == 'checkIqType']
